@@ -56,6 +56,12 @@ P = {
  "C16": (True, "exploration", "property-based testing over a table of declared EncodeLike pairs, each certified by the compiler through a generic bound",
    "63 rows covering every EncodeLike impl family, values generated from the owner's model type (incl. unsorted/duplicate slices for maps/sets); bytes must equal the reference encoding, decode as the target type to the reference decoder's value, and equal the target's own encoding where canonical.",
    "The table is hand-maintained; impl headers found in /repo/src are counted in the evidence.", "§6 C16"),
+ "C05": (True, "exploration", "generated programs: derive definitions from a grammar, compiled against /repo and executed against a definition-derived model (differential), crash-recovering",
+   "Generated valid derive definitions (attributes, generics, nesting, transparent, index sources, skipped/all-skipped/empty enums, 255/256 variants) each paired with a model impl written from the definition; compiled together and executed: layout, entry points, round trip, decoder vs reference on mutated strings, all 256 index bytes, mem-limit threshold; termination of skipped-variant encoding observed through begin/end markers with a strict re-run; valid definitions that fail to compile are confirmed alone.",
+   "Program space is the grammar in DESIGN §4.3; definitions are not shrunk beyond choosing the smallest failing one per root cause.", "§6 C05"),
+ "C17": (True, "exploration", "generated programs with the compiler as oracle vs a reference validity predicate; disagreements re-compiled in isolation",
+   "Generated enum definitions over index/discriminant/implicit/skip assignments with indices 0..=300 (incl. 255/256/257 variants), the finite attribute-conflict/union/CompactAs-shape set, each invalid program paired with a minimally different valid twin; cargo check verdict per definition (JSON span attribution) compared with the reference predicate.",
+   "Rust-level validity of generated programs is the generator's responsibility (self-checked); disagreements are re-taken alone.", "§6 C17"),
 }
 PENDING = {
 }
